@@ -6,6 +6,7 @@ import Driver.EvalIndex
 import Driver.Reindex
 import Driver.Fortran
 import Driver.Expr
+import Driver.Parser
 /-
 Correspondence driver.  `.lake/build/bin/fsicdrv < requests > replies`  (or `lake env lean --run Main.lean`)
 Each request line is `<kind>\t<json>`; each reply is one line (`!<message>` on a malformed request).
@@ -22,6 +23,7 @@ def allHandlers : List (String × (Json → Except String String)) :=
   Drv.Reindex.handlers ++
   Drv.Fortran.handlers ++
   Drv.Expr.handlers
+  ++ Drv.Parser.handlers
 
 def dispatch (kind : String) (j : Json) : Except String String :=
   match allHandlers.lookup kind with
